@@ -55,7 +55,7 @@ func (b *Block) Has(flag string) bool {
 }
 
 var clauseKinds = map[string]bool{
-	"requires": true, "ensures": true, "exit": true, "focus": true, "invariant": true, "decreases": true,
+	"requires": true, "ensures": true, "exit": true, "focus": true, "splitreturn": true, "invariant": true, "decreases": true,
 	"modifies": true, "props": true, "nopanic": true, "pure": true, "inline": true,
 	"let": true, "alloc": true, "assume": true, "assert": true, "havoc": true,
 	"trusted": true, "unroll": true, "callback": true, "protects": true,
@@ -185,7 +185,7 @@ func ParseContractText(text, path, pkg string, extern bool) ([]*Block, error) {
 				cur.Props = append(cur.Props, strings.Fields(rest)...)
 				last = nil
 				continue
-			case "nopanic", "pure", "inline", "trusted", "noinline", "opaque", "maypanic", "terminates", "noframe", "group", "lockkey", "noreturn", "ghost", "noalloc", "deadcode", "relocks":
+			case "nopanic", "pure", "inline", "trusted", "noinline", "opaque", "maypanic", "terminates", "noframe", "group", "lockkey", "noreturn", "ghost", "noalloc", "deadcode", "relocks", "splitreturn":
 				cur.Flags[word] = rest
 				last = nil
 				continue
